@@ -45,6 +45,7 @@ def setup(rep, tier):
     rep.minimum('R15.5', 150)
     rep.minimum('R15.7', 10)
     rep.minimum('R15.8', 1)
+    rep.minimum('R15.9', 1)
 
 
 def isa_flags(prog, rel):
@@ -213,6 +214,7 @@ def check(rep, prog, tier):
     r15_4(rep, prog)
     r15_5(rep, prog)
     r15_8(rep, prog)
+    r15_9(rep, prog)
     r15_7(rep, prog)
 
 
@@ -725,6 +727,57 @@ def r15_8(rep, prog):
             rep.violated('R15.8', inst, b[ob[0]] if ob else a[oa[0]], 'only in %s: %s; only in %s: %s - the two kernels decide differently for NaN (or for the changed bound), so they cannot be bit-identical on every input' % (
                 c0.name, oa or '-', tw.name, ob or '-'), key='%s:%s:float-conditions' % (c0.name, tw.name))
     return n
+
+
+def r15_9(rep, prog):
+    """OPUS_CHECK_ASM is the build option under which every SIMD kernel is run next to the C kernel and compared.  It may
+    ADD code (the comparison); a conditional block that REPLACES the shipped arithmetic under that option - an `#else`
+    branch with code - means the kernel that is checked is not the kernel that ships, i.e. the source itself says the
+    shipped kernel is not bit-identical to the C code.  Preprocessor structure is invisible in the AST, so this rule reads
+    the conditional-inclusion structure of the kernel sources directly (all of celt/ and silk/, every target)."""
+    import re as _r
+    import glob as _g
+    import os as _o
+    from .. import compdb
+    if prog.config.split('+')[0] != 'float' and 'float' in CONFIGS['quick']:
+        return 0            # source-level rule: once per run is enough
+    root = compdb.REPO
+    nblocks = 0
+    bad = []
+    for pat in ('celt/**/*.[ch]', 'silk/**/*.[ch]'):
+        for path in sorted(_g.glob(_o.path.join(root, pat), recursive=True)):
+            rel = _o.path.relpath(path, root)
+            try:
+                lines = open(path, errors='replace').read().split('\n')
+            except OSError:
+                continue
+            stack = []
+            for i, l in enumerate(lines, 1):
+                t = l.strip()
+                if _r.match(r'#\s*if', t):
+                    pos = 'OPUS_CHECK_ASM' in t and not _r.search(r'ifndef|!\s*defined', t)
+                    stack.append([i, pos, None])
+                elif _r.match(r'#\s*(else|elif)', t) and stack and stack[-1][2] is None:
+                    stack[-1][2] = i
+                elif _r.match(r'#\s*endif', t) and stack:
+                    st0 = stack.pop()
+                    if st0[1]:
+                        nblocks += 1
+                        if st0[2]:
+                            body = [x.strip() for x in lines[st0[2]:i - 1] if x.strip() and not x.strip().startswith(('/*', '*', '//'))]
+                            code = [x for x in body if not _r.match(r'(silk_assert|celt_assert|celt_sig_assert)\s*\(', x)]
+                            if code:
+                                bad.append((rel, st0[0], st0[2], code[0]))
+    inst = '%s:the self-check option only adds comparisons, it never replaces shipped kernel arithmetic' % prog.config
+    if nblocks < 10:
+        rep.unresolved('R15.9', inst + ': only %d OPUS_CHECK_ASM blocks found' % nblocks)
+        return 0
+    if not bad:
+        rep.holds('R15.9', inst, None, '%d conditional blocks on OPUS_CHECK_ASM, none with an #else branch holding code' % nblocks)
+    for rel, l0, l1, code in bad:
+        rep.violated('R15.9', inst + ' (%s)' % rel, '%s:%d' % (rel, l1), 'the block opened at line %d computes `%s ...` in the shipped build and something else under OPUS_CHECK_ASM: the kernel is admittedly not bit-identical to the C code, and the self-check cannot notice' % (l0, code[:50]),
+                     key='%s:check-asm-else' % rel)
+    return max(1, len(bad))
 
 
 def r15_5(rep, prog):
